@@ -3,10 +3,15 @@ C17 property theorems: rejection, mask interpolation and sky masking act on
 exactly the intended pixels.  Helper lemmas live in PydlVerif/Lemmas/Reject.lean
 and PydlVerif/Lemmas/Interp.lean; the theorems listed in harness/props/c17.py follow.
 All statements are over an arbitrary linearly ordered field `K` (exact arithmetic).
+Second extension round (end of the file; helpers in Lemmas/Median2.lean, Lemmas/Damp.lean): aesthetics with every
+method, the 2-D median, the `boundary` clauses, refusals and degenerate inputs.
 -/
 import PydlVerif.Lemmas.Reject
 import PydlVerif.Lemmas.Interp
+import PydlVerif.Lemmas.Damp
+import PydlVerif.Lemmas.Median2
 import Mathlib.Data.Rat.Floor
+import Mathlib.Tactic.NormNum.OfScientific
 namespace PydlVerif.C17
 open PydlVerif PydlVerif.Reject PydlVerif.Interp
 
@@ -703,5 +708,687 @@ example : ext ([1, 2, 3] : List ℚ) (-1) = 1 ∧ ext ([1, 2, 3] : List ℚ) 0 =
   refine ⟨?_, ?_, ?_, ?_⟩ <;> (unfold ext; norm_num) <;> rfl
 
 end median
+
+/-! # second extension round: aesthetics (every method), the remaining refusal / degenerate clauses,
+the 2-D median and the other `boundary` clauses -/
+
+section aesthetics
+variable {K : Type} [Field K] [LinearOrder K] [IsStrictOrderedRing K] [FloorRing K]
+attribute [local instance] fieldScalar
+attribute [-instance] Scalar.instOfNat Scalar.instOfScientific
+
+theorem maskinterp1_length (y : List K) (bad : List Bool) (const : Bool) :
+    (maskinterp1 y bad const).length = y.length := by
+  unfold maskinterp1
+  rw [interpCore_length, ptsIdx_length]
+
+theorem badpts_any (invvar : List K) :
+    (invvar.map Interp.isZeroI).any id = true ↔ ∃ v ∈ invvar, v = 0 := by
+  simp only [List.any_map, List.any_eq_true, Function.comp, id, interp_isZero_iff]
+
+theorem badpts_any_false (invvar : List K) (h : ∀ v ∈ invvar, v ≠ 0) :
+    (invvar.map Interp.isZeroI).any id = false := by
+  cases hb : (invvar.map Interp.isZeroI).any id with
+  | false => rfl
+  | true =>
+    obtain ⟨v, hv, h0⟩ := (badpts_any invvar).1 hb
+    exact absurd h0 (h v hv)
+
+/-- **no pixel with `invvar == 0`: every method - 'damp' and an unknown name included - returns the flux itself** -/
+theorem aesthetics_clean (erf : K → K) (flux invvar : List K) (m : Method) (gm : K)
+    (h : ∀ v ∈ invvar, v ≠ 0) : aestheticsFull erf flux invvar m gm = .ok flux := by
+  have hb := badpts_any_false invvar h
+  cases m <;> simp [aestheticsFull, aesthetics, aestheticsDamp, hb]
+
+/-- `aesthetics_only_bad` read through the full dispatch: for traditional, noconst, mean, nothing (`invvar ≥ 0`) the flux
+changes only where the inverse variance is zero -/
+theorem aesthetics_full_only_bad (erf : K → K) (flux invvar : List K) (m : Method) (gm : K)
+    (hlen : invvar.length = flux.length) (hnn : ∀ v ∈ invvar, 0 ≤ v)
+    (hm : m = .traditional ∨ m = .noconst ∨ m = .mean ∨ m = .nothing) :
+    ∃ out, aestheticsFull erf flux invvar m gm = .ok out ∧
+      ∀ i (hi : i < flux.length), invvar[i] ≠ 0 → out[i]? = some flux[i] := by
+  have e : aestheticsFull erf flux invvar m gm = aesthetics flux invvar m gm := by
+    rcases hm with rfl | rfl | rfl | rfl <;> rfl
+  rw [e]
+  exact aesthetics_only_bad flux invvar m gm hlen hnn hm
+
+/-- **an unknown method raises `Pydlspec2dException`** as soon as one pixel has `invvar == 0` -/
+theorem aesthetics_unknown_raises (erf : K → K) (flux invvar : List K) (gm : K) (h : ∃ v ∈ invvar, v = 0) :
+    aestheticsFull erf flux invvar .unknown gm = .error "PydlException:Pydlspec2dException" := by
+  have hb := (badpts_any invvar).2 h
+  simp [aestheticsFull, aesthetics, hb]
+
+/-- **'traditional' / 'noconst' are `djs_maskinterp(flux, invvar == 0, const = True / False)`**; every `maskinterp_*`
+theorem therefore speaks about the replaced values -/
+theorem aesthetics_is_maskinterp (erf : K → K) (flux invvar : List K) (gm : K) (h : ∃ v ∈ invvar, v = 0) :
+    aestheticsFull erf flux invvar .traditional gm = .ok (maskinterp1 flux (invvar.map Interp.isZeroI) true) ∧
+    aestheticsFull erf flux invvar .noconst gm = .ok (maskinterp1 flux (invvar.map Interp.isZeroI) false) := by
+  have hb := (badpts_any invvar).2 h
+  constructor <;> simp [aestheticsFull, aesthetics, hb]
+
+/-- **'nothing' returns the flux** -/
+theorem aesthetics_nothing (erf : K → K) (flux invvar : List K) (gm : K) :
+    aestheticsFull erf flux invvar .nothing gm = .ok flux := by
+  simp [aestheticsFull, aesthetics]
+
+
+theorem badpts_get (invvar : List K) (i : Nat) (hi : i < invvar.length) :
+    ((invvar.map Interp.isZeroI)[i]'(by simpa using hi) = true ↔ invvar[i] = 0) ∧
+    ((invvar.map Interp.isZeroI)[i]'(by simpa using hi) = false ↔ invvar[i] ≠ 0) := by
+  rw [List.getElem_map]
+  constructor
+  · exact interp_isZero_iff _
+  · rw [Ne, ← interp_isZero_iff]; simp
+
+/-- **'traditional' / 'noconst': a run of `invvar == 0` pixels between two good pixels `a < b` is replaced by the
+straight line through `(a, flux[a])` and `(b, flux[b])`; a leading / trailing run takes the value of the first / last
+good pixel** (for both methods: `np.interp` already holds the ends constant) -/
+theorem aesthetics_replaced_values (erf : K → K) (flux invvar : List K) (gm : K) (m : Method)
+    (hm : m = .traditional ∨ m = .noconst) (hlen : invvar.length = flux.length) :
+    ∃ out, aestheticsFull erf flux invvar m gm = .ok out ∧
+      (∀ a i b (_ : a < i) (_ : i < b) (hb : b < flux.length), invvar[a]'(by omega) ≠ 0 → invvar[b]'(by omega) ≠ 0 →
+        (∀ k (_ : a < k) (_ : k < b), invvar[k]'(by omega) = 0) →
+        out[i]? = some ((flux[b] - flux[a]'(by omega)) / ((b : K) - (a : K)) * ((i : K) - (a : K)) + flux[a]'(by omega))) ∧
+      (∀ a (ha : a < flux.length), invvar[a]'(by omega) ≠ 0 → (∀ k (_ : k < a), invvar[k]'(by omega) = 0) →
+        ∀ i, i < a → out[i]? = some flux[a]) ∧
+      (∀ b (hb : b < flux.length), invvar[b]'(by omega) ≠ 0 →
+        (∀ k (_ : b < k) (_ : k < flux.length), invvar[k]'(by omega) = 0) →
+        ∀ i, b < i → i < flux.length → out[i]? = some flux[b]) := by
+  have hbl : (invvar.map Interp.isZeroI).length = flux.length := by simp [hlen]
+  have key : ∀ const : Bool,
+      (∀ a i b (_ : a < i) (_ : i < b) (hb : b < flux.length), invvar[a]'(by omega) ≠ 0 → invvar[b]'(by omega) ≠ 0 →
+        (∀ k (_ : a < k) (_ : k < b), invvar[k]'(by omega) = 0) →
+        (maskinterp1 flux (invvar.map Interp.isZeroI) const)[i]? =
+          some ((flux[b] - flux[a]'(by omega)) / ((b : K) - (a : K)) * ((i : K) - (a : K)) + flux[a]'(by omega))) ∧
+      (∀ a (ha : a < flux.length), invvar[a]'(by omega) ≠ 0 → (∀ k (_ : k < a), invvar[k]'(by omega) = 0) →
+        ∀ i, i < a → (maskinterp1 flux (invvar.map Interp.isZeroI) const)[i]? = some flux[a]) ∧
+      (∀ b (hb : b < flux.length), invvar[b]'(by omega) ≠ 0 →
+        (∀ k (_ : b < k) (_ : k < flux.length), invvar[k]'(by omega) = 0) →
+        ∀ i, b < i → i < flux.length → (maskinterp1 flux (invvar.map Interp.isZeroI) const)[i]? = some flux[b]) := by
+    intro const
+    refine ⟨?_, ?_, ?_⟩
+    · intro a i b hai hib hb ga gb hmid
+      exact maskinterp_linear flux _ const hbl a i b hai hib hb
+        ((badpts_get invvar a (by omega)).2.2 ga) ((badpts_get invvar b (by omega)).2.2 gb)
+        (fun k h1 h2 => (badpts_get invvar k (by omega)).1.2 (hmid k h1 h2))
+    · intro a ha ga hpre i hi
+      exact (ends_constant flux _ const hbl).1 a ha ((badpts_get invvar a (by omega)).2.2 ga)
+        (fun k hk => (badpts_get invvar k (by omega)).1.2 (hpre k hk)) i hi
+    · intro b hb gb hpost i hbi hi
+      exact (ends_constant flux _ const hbl).2 b hb ((badpts_get invvar b (by omega)).2.2 gb)
+        (fun k h1 h2 => (badpts_get invvar k (by omega)).1.2 (hpost k h1 h2)) i hbi hi
+  by_cases h : ∃ v ∈ invvar, v = 0
+  · obtain ⟨h1, h2⟩ := aesthetics_is_maskinterp erf flux invvar gm h
+    rcases hm with rfl | rfl
+    · exact ⟨_, h1, key true⟩
+    · exact ⟨_, h2, key false⟩
+  · -- no bad pixel at all: the flux is returned and the three clauses have no instance with a bad pixel
+    have hall : ∀ v ∈ invvar, v ≠ 0 := fun v hv h0 => h ⟨v, hv, h0⟩
+    refine ⟨flux, aesthetics_clean erf flux invvar m gm hall, ?_, ?_, ?_⟩
+    · intro a i b hai hib hb _ _ hmid
+      exact absurd (hmid i hai hib) (hall _ (List.getElem_mem _))
+    · intro a ha _ hpre i hi
+      exact absurd (hpre i hi) (hall _ (List.getElem_mem _))
+    · intro b hb _ hpost i hbi hi
+      exact absurd (hpost i hbi hi) (hall _ (List.getElem_mem _))
+
+/-- **'mean'**: when some pixel has `invvar == 0`, every pixel with `invvar > 0` keeps its flux and every other pixel
+(`invvar == 0`, and `invvar < 0` if present) gets `gm` = the mean of the flux over the pixels with `invvar > 0`
+(`newflux[goodpts].mean()`, computed by numpy: parameter) -/
+theorem aesthetics_mean_values (erf : K → K) (flux invvar : List K) (gm : K) (hlen : invvar.length = flux.length)
+    (h : ∃ v ∈ invvar, v = 0) :
+    ∃ out, aestheticsFull erf flux invvar .mean gm = .ok out ∧ out.length = flux.length ∧
+      ∀ i (hi : i < flux.length), out[i]? = some (if invvar[i]'(by omega) > 0 then flux[i] else gm) := by
+  have hb := (badpts_any invvar).2 h
+  have he : aestheticsFull erf flux invvar .mean gm =
+      .ok ((flux.zip invvar).map fun (f, v) => if decide (v > 0) then f else gm) := by
+    simp only [aestheticsFull, aesthetics, hb, if_true, scalar_lit, Nat.cast_zero]
+  refine ⟨_, he, by simp [hlen], ?_⟩
+  intro i hi
+  have hi' : i < invvar.length := by omega
+  have hz : (flux.zip invvar)[i]? = some (flux[i], invvar[i]) :=
+    List.getElem?_zip_eq_some.2 ⟨List.getElem?_eq_getElem hi, List.getElem?_eq_getElem hi'⟩
+  rw [List.getElem?_map, hz]
+  simp
+
+/-- the exact mean of the flux over the pixels with `invvar > 0` -/
+noncomputable def meanGood (flux invvar : List K) : K :=
+  (((flux.zip invvar).filter (fun p => decide (p.2 > 0))).map (·.1)).sum /
+    (((flux.zip invvar).filter (fun p => decide (p.2 > 0))).length : K)
+
+/-- 'mean' with the exact mean: the pixels without positive inverse variance get (sum of the good flux values) /
+(number of good pixels) -/
+theorem aesthetics_mean_exact (erf : K → K) (flux invvar : List K) (hlen : invvar.length = flux.length)
+    (h : ∃ v ∈ invvar, v = 0) :
+    ∃ out, aestheticsFull erf flux invvar .mean (meanGood flux invvar) = .ok out ∧ out.length = flux.length ∧
+      ∀ i (hi : i < flux.length),
+        out[i]? = some (if invvar[i]'(by omega) > 0 then flux[i] else meanGood flux invvar) :=
+  aesthetics_mean_values erf flux invvar _ hlen h
+
+
+/-- the factor `0.5*(1+erf((pixels-mingood)/damp1))`, `damp1 = min(mingood, 250)`, applied to EVERY pixel when bad
+pixels lead (`mingood > 0`); 1 otherwise -/
+def dampL (erf : K → K) (lo i : Nat) : K :=
+  if lo > 0 then 0.5 * (1.0 + erf (((i : K) - (lo : K)) / ((min lo 250 : Nat) : K))) else 1
+
+/-- the factor `0.5*(1+erf((maxgood-pixels)/damp2))`, `damp2 = max(min(maxgood, 250), 1)`, applied to EVERY pixel when
+bad pixels trail (`maxgood < nflux-1`); 1 otherwise -/
+def dampR (erf : K → K) (hi n i : Nat) : K :=
+  if hi < n - 1 then 0.5 * (1.0 + erf (((hi : K) - (i : K)) / ((max (min hi 250) 1 : Nat) : K))) else 1
+
+theorem goodP (invvar : List K) (k : Nat) (hk : k < invvar.length) :
+    ((fun i => !((invvar.map Interp.isZeroI).getD i true)) k = true ↔ invvar[k] ≠ 0) ∧
+    ((fun i => !((invvar.map Interp.isZeroI).getD i true)) k = false ↔ invvar[k] = 0) := by
+  have e : (invvar.map Interp.isZeroI).getD k true = Interp.isZeroI invvar[k] := by
+    rw [List.getD_eq_getElem?_getD, List.getElem?_map, List.getElem?_eq_getElem hk]; rfl
+  simp only [e, Bool.not_eq_true', Bool.not_eq_false']
+  constructor
+  · rw [Ne, ← interp_isZero_iff]; simp
+  · exact interp_isZero_iff _
+
+/-- **aesthetics('damp'), the code's formula** (`lo` = first, `hi` = last pixel with `invvar != 0`, some pixel with
+`invvar == 0`): the result is `djs_maskinterp(flux, invvar == 0, const=True)` multiplied - at EVERY pixel, good ones
+included - by `dampL` (≠ 1 only when bad pixels lead) and by `dampR` (≠ 1 only when bad pixels trail) -/
+theorem damp_formula (erf : K → K) (flux invvar : List K) (hlen : invvar.length = flux.length)
+    (lo hi : Nat) (hlh : lo ≤ hi) (hhi : hi < flux.length)
+    (glo : invvar[lo]'(by omega) ≠ 0) (ghi : invvar[hi]'(by omega) ≠ 0)
+    (hpre : ∀ k (_ : k < lo), invvar[k]'(by omega) = 0)
+    (hpost : ∀ k (_ : hi < k) (_ : k < flux.length), invvar[k]'(by omega) = 0)
+    (hbad : ∃ v ∈ invvar, v = 0) :
+    ∃ out, aestheticsDamp erf flux invvar = .ok out ∧ out.length = flux.length ∧
+      ∀ i (_ : i < flux.length), out[i]? = some
+        ((maskinterp1 flux (invvar.map Interp.isZeroI) true).getD i 0 * dampL erf lo i *
+          dampR erf hi flux.length i) := by
+  have hb := (badpts_any invvar).2 hbad
+  have h1 := filter_range_head (fun i => !((invvar.map Interp.isZeroI).getD i true)) invvar.length lo (by omega)
+    ((goodP invvar lo (by omega)).1.2 glo) (fun k hk => (goodP invvar k (by omega)).2.2 (hpre k hk))
+  have h2 := filter_range_last (fun i => !((invvar.map Interp.isZeroI).getD i true)) hi
+    ((goodP invvar hi (by omega)).1.2 ghi) invvar.length (by omega)
+    (fun k hk1 hk2 => (goodP invvar k hk2).2.2 (hpost k hk1 (by omega)))
+  have hl0 := maskinterp1_length flux (invvar.map Interp.isZeroI) true
+  unfold aestheticsDamp
+  simp only [hb, if_true, h1, h2]
+  refine ⟨_, rfl, ?_, ?_⟩
+  · split <;> split <;> simp only [List.length_map, List.length_range, hl0]
+  · intro i hi'
+    unfold dampL dampR
+    have hi0 : i < (maskinterp1 flux (invvar.map Interp.isZeroI) true).length := by omega
+    by_cases c1 : lo > 0 <;> by_cases c2 : hi < flux.length - 1 <;>
+      simp only [c1, c2, if_true, if_false, List.getElem?_map, List.length_map, List.length_range, hl0,
+        List.getElem?_range hi', Option.map_some, List.getD_eq_getElem?_getD, Option.getD_some, scalar_ofNat,
+        scalar_sci, mul_one, List.getElem?_eq_getElem hi0]
+
+
+/-- **aesthetics('damp'), pixel by pixel** (same hypotheses as `damp_formula`; `L i = dampL erf lo i`,
+`R i = dampR erf hi n i`): a good pixel becomes `flux[i]·L i·R i`; a run of bad pixels between the good pixels `a < b`
+becomes the straight line through them times `L i·R i`; the leading bad pixels become `flux[lo]·L i·R i`, the trailing
+ones `flux[hi]·L i·R i` -/
+theorem damp_values (erf : K → K) (flux invvar : List K) (hlen : invvar.length = flux.length)
+    (lo hi : Nat) (hlh : lo ≤ hi) (hhi : hi < flux.length)
+    (glo : invvar[lo]'(by omega) ≠ 0) (ghi : invvar[hi]'(by omega) ≠ 0)
+    (hpre : ∀ k (_ : k < lo), invvar[k]'(by omega) = 0)
+    (hpost : ∀ k (_ : hi < k) (_ : k < flux.length), invvar[k]'(by omega) = 0)
+    (hbad : ∃ v ∈ invvar, v = 0) :
+    ∃ out, aestheticsDamp erf flux invvar = .ok out ∧ out.length = flux.length ∧
+      (∀ i (hi' : i < flux.length), invvar[i]'(by omega) ≠ 0 →
+        out[i]? = some (flux[i] * dampL erf lo i * dampR erf hi flux.length i)) ∧
+      (∀ a i b (_ : a < i) (_ : i < b) (hb : b < flux.length), invvar[a]'(by omega) ≠ 0 → invvar[b]'(by omega) ≠ 0 →
+        (∀ k (_ : a < k) (_ : k < b), invvar[k]'(by omega) = 0) →
+        out[i]? = some (((flux[b] - flux[a]'(by omega)) / ((b : K) - (a : K)) * ((i : K) - (a : K)) + flux[a]'(by omega)) *
+          dampL erf lo i * dampR erf hi flux.length i)) ∧
+      (∀ i, i < lo → out[i]? = some (flux[lo]'(by omega) * dampL erf lo i * dampR erf hi flux.length i)) ∧
+      (∀ i, hi < i → i < flux.length → out[i]? = some (flux[hi] * dampL erf lo i * dampR erf hi flux.length i)) := by
+  obtain ⟨out, h1, h2, h3⟩ := damp_formula erf flux invvar hlen lo hi hlh hhi glo ghi hpre hpost hbad
+  have hbl : (invvar.map Interp.isZeroI).length = flux.length := by simp [hlen]
+  have conv : ∀ i (v : K), (maskinterp1 flux (invvar.map Interp.isZeroI) true)[i]? = some v →
+      (maskinterp1 flux (invvar.map Interp.isZeroI) true).getD i 0 = v := by
+    intro i v h; rw [List.getD_eq_getElem?_getD, h]; rfl
+  refine ⟨out, h1, h2, ?_, ?_, ?_, ?_⟩
+  · intro i hi' g
+    rw [h3 i hi', conv i _ (maskinterp_only_masked flux _ true hbl i hi' ((badpts_get invvar i (by omega)).2.2 g))]
+  · intro a i b hai hib hb ga gb hmid
+    rw [h3 i (by omega), conv i _ (maskinterp_linear flux _ true hbl a i b hai hib hb
+      ((badpts_get invvar a (by omega)).2.2 ga) ((badpts_get invvar b (by omega)).2.2 gb)
+      (fun k k1 k2 => (badpts_get invvar k (by omega)).1.2 (hmid k k1 k2)))]
+  · intro i hi'
+    rw [h3 i (by omega), conv i _ ((ends_constant flux _ true hbl).1 lo (by omega)
+      ((badpts_get invvar lo (by omega)).2.2 glo)
+      (fun k hk => (badpts_get invvar k (by omega)).1.2 (hpre k hk)) i hi')]
+  · intro i hi1 hi2
+    rw [h3 i hi2, conv i _ ((ends_constant flux _ true hbl).2 hi hhi
+      ((badpts_get invvar hi (by omega)).2.2 ghi)
+      (fun k k1 k2 => (badpts_get invvar k (by omega)).1.2 (hpost k k1 k2)) i hi1 hi2)]
+
+/-- **aesthetics('damp') leaves the good pixels alone exactly in the situation "first and last pixel good"**: then both
+factors are 1 and the result is `djs_maskinterp(flux, invvar == 0, const=True)` - good pixels unchanged, bad runs
+interpolated linearly -/
+theorem damp_ends_good (erf : K → K) (flux invvar : List K) (hlen : invvar.length = flux.length)
+    (hn : 0 < flux.length) (g0 : invvar[0]'(by omega) ≠ 0) (g1 : invvar[flux.length - 1]'(by omega) ≠ 0)
+    (hbad : ∃ v ∈ invvar, v = 0) :
+    ∃ out, aestheticsDamp erf flux invvar = .ok out ∧ out = maskinterp1 flux (invvar.map Interp.isZeroI) true ∧
+      ∀ i (hi' : i < flux.length), invvar[i]'(by omega) ≠ 0 → out[i]? = some flux[i] := by
+  obtain ⟨out, h1, h2, h3⟩ := damp_formula erf flux invvar hlen 0 (flux.length - 1) (by omega) (by omega) g0 g1
+    (fun k hk => absurd hk (by omega)) (fun k k1 k2 => absurd k1 (by omega)) hbad
+  have hbl : (invvar.map Interp.isZeroI).length = flux.length := by simp [hlen]
+  have hl0 := maskinterp1_length flux (invvar.map Interp.isZeroI) true
+  have e : out = maskinterp1 flux (invvar.map Interp.isZeroI) true := by
+    apply List.ext_getElem?
+    intro i
+    by_cases hi' : i < flux.length
+    · rw [h3 i hi']
+      simp only [dampL, dampR, lt_self_iff_false, if_false, mul_one]
+      rw [List.getD_eq_getElem?_getD, List.getElem?_eq_getElem (by omega)]; rfl
+    · rw [List.getElem?_eq_none (by omega), List.getElem?_eq_none (by omega)]
+  refine ⟨out, h1, e, ?_⟩
+  intro i hi' g
+  rw [e]
+  exact maskinterp_only_masked flux _ true hbl i hi' ((badpts_get invvar i (by omega)).2.2 g)
+
+/-- **aesthetics('damp') with bad leading pixels changes a good pixel** (why "flux changes only where invvar = 0" is
+not claimed for 'damp'): for an odd function `erf` (`erf 0 = 0`) the first good pixel `lo > 0` is halved (times the
+trailing factor) -/
+theorem damp_halves_first_good (erf : K → K) (he : erf 0 = 0) (flux invvar : List K)
+    (hlen : invvar.length = flux.length) (lo hi : Nat) (hlh : lo ≤ hi) (hhi : hi < flux.length) (hlo : 0 < lo)
+    (glo : invvar[lo]'(by omega) ≠ 0) (ghi : invvar[hi]'(by omega) ≠ 0)
+    (hpre : ∀ k (_ : k < lo), invvar[k]'(by omega) = 0)
+    (hpost : ∀ k (_ : hi < k) (_ : k < flux.length), invvar[k]'(by omega) = 0) :
+    ∃ out, aestheticsDamp erf flux invvar = .ok out ∧
+      out[lo]? = some (flux[lo]'(by omega) / 2 * dampR erf hi flux.length lo) := by
+  have hbad : ∃ v ∈ invvar, v = 0 := ⟨_, List.getElem_mem (by omega : 0 < invvar.length), hpre 0 hlo⟩
+  obtain ⟨out, h1, _, h3, _⟩ := damp_values erf flux invvar hlen lo hi hlh hhi glo ghi hpre hpost hbad
+  refine ⟨out, h1, ?_⟩
+  rw [h3 lo (by omega) glo]
+  congr 2
+  simp only [dampL, hlo, if_true, sub_self, zero_div, he]
+  norm_num
+  ring
+
+/-- **aesthetics('damp') without any good pixel raises ValueError** (`goodpts.min()` of an empty array) -/
+theorem damp_no_good_raises (erf : K → K) (flux invvar : List K) (hne : invvar ≠ [])
+    (hall : ∀ v ∈ invvar, v = 0) : aestheticsDamp erf flux invvar = .error "ValueError" := by
+  have hb : (invvar.map Interp.isZeroI).any id = true := by
+    rw [badpts_any]
+    cases invvar with
+    | nil => exact absurd rfl hne
+    | cons v l => exact ⟨v, List.mem_cons_self, hall v List.mem_cons_self⟩
+  have hnil := filter_range_nil (fun i => !((invvar.map Interp.isZeroI).getD i true)) invvar.length
+    (fun k hk => (goodP invvar k hk).2.2 (hall _ (List.getElem_mem hk)))
+  unfold aestheticsDamp
+  simp only [hb, if_true, hnil, List.head?_nil, List.getLast?_nil]
+
+/-- non-vacuity of `damp_formula` / `damp_values` / `damp_halves_first_good`: `flux = [1, 2, 3]`, `invvar = [0, 1, 0]`
+(one good pixel, bad pixels lead and trail) meets the hypotheses with `lo = hi = 1` -/
+example : ∃ out, aestheticsDamp (fun x : ℚ => x) [1, 2, 3] [0, 1, 0] = .ok out ∧ out.length = 3 :=
+  let ⟨out, h1, h2, _⟩ := damp_formula (fun x : ℚ => x) [1, 2, 3] [0, 1, 0] rfl 1 1 (by omega) (by decide)
+    (by decide) (by decide)
+    (by intro k hk; have : k = 0 := by omega
+        subst this; rfl)
+    (by intro k h1 h2; have h3 : k < 3 := h2
+        have : k = 2 := by omega
+        subst this; rfl)
+    ⟨0, List.mem_cons_self, rfl⟩
+  ⟨out, h1, h2⟩
+
+end aesthetics
+
+section misc
+variable {K : Type} [Field K] [LinearOrder K] [IsStrictOrderedRing K] [FloorRing K]
+attribute [local instance] fieldScalar
+attribute [-instance] Scalar.instOfNat Scalar.instOfScientific
+
+/-- **no unmasked sample at all: the input is returned unchanged** (index mode, any `const`) -/
+theorem maskinterp_all_masked (y : List K) (bad : List Bool) (const : Bool) (hlen : bad.length = y.length)
+    (hall : ∀ i (hi : i < y.length), bad[i] = true) : maskinterp1 y bad const = y := by
+  have hmap : (ptsIdx y bad).map (·.y) = y := by
+    apply List.ext_getElem
+    · simp [ptsIdx_length]
+    · intro i h1 h2
+      rw [List.getElem_map, ptsIdx_get y bad hlen i h2]
+  have hb : ∀ p ∈ ptsIdx y bad, p.bad = true := by
+    intro p hp
+    obtain ⟨k, hk, rfl⟩ := List.getElem_of_mem hp
+    rw [ptsIdx_length] at hk
+    rw [ptsIdx_get y bad hlen k hk]
+    exact hall k hk
+  unfold maskinterp1 interpCore
+  split
+  · exact hmap
+  · rw [goodPts_all_bad _ hb]
+    exact hmap
+
+set_option linter.unusedSimpArgs false in
+/-- **djs_maskinterp, the refusals**: mask (or xval) of another shape, more than one dimension without `axis`, an axis
+outside `0 … ndim-1`, more than three dimensions: ValueError; one dimension: the 1-D routine, `axis` ignored -/
+theorem maskinterp_refusals (argsort : List K → List Nat) (yshape mshape : List Nat) (xshape : Option (List Nat))
+    (y : List K) (bad : List Bool) (x : List K) (axis : Option Int) (const : Bool) :
+    (mshape ≠ yshape → maskinterp argsort yshape mshape xshape y bad x axis const = .error "ValueError") ∧
+    (∀ xs, xshape = some xs → xs ≠ yshape →
+      maskinterp argsort yshape mshape xshape y bad x axis const = .error "ValueError") ∧
+    (mshape = yshape → xshape = none ∨ xshape = some yshape → yshape.length ≠ 1 →
+      (axis = none → maskinterp argsort yshape mshape xshape y bad x axis const = .error "ValueError") ∧
+      (∀ a, axis = some a → a < 0 ∨ a > (yshape.length : Int) - 1 →
+        maskinterp argsort yshape mshape xshape y bad x axis const = .error "ValueError") ∧
+      (∀ a, axis = some a → yshape.length ≠ 2 → yshape.length ≠ 3 →
+        maskinterp argsort yshape mshape xshape y bad x axis const = .error "ValueError")) ∧
+    (mshape = yshape → yshape.length = 1 →
+      (xshape = none → maskinterp argsort yshape mshape xshape y bad x axis const = .ok (maskinterp1 y bad const)) ∧
+      (xshape = some yshape → maskinterp argsort yshape mshape xshape y bad x axis const =
+        .ok (maskinterp1X y bad x (argsort x) const))) := by
+  refine ⟨?_, ?_, ?_, ?_⟩
+  · intro h
+    unfold maskinterp
+    simp [h, bind, Except.bind, throw, throwThe, MonadExceptOf.throw]
+  · intro xs hx hne
+    subst hx
+    unfold maskinterp
+    by_cases hm : mshape = yshape
+    · simp [hm, hne, bind, Except.bind, throw, throwThe, MonadExceptOf.throw, pure, Except.pure]
+    · simp [hm, bind, Except.bind, throw, throwThe, MonadExceptOf.throw]
+  · intro hm hx hnd
+    have h1 : (yshape.length == 1) = false := by
+      cases hb : (yshape.length == 1) with
+      | true => simp at hb; exact absurd hb hnd
+      | false => rfl
+    refine ⟨?_, ?_, ?_⟩
+    · intro ha
+      subst ha
+      unfold maskinterp
+      rcases hx with rfl | rfl <;>
+        simp [hm, h1, bind, Except.bind, throw, throwThe, MonadExceptOf.throw, pure, Except.pure]
+    · intro a ha hr
+      subst ha
+      unfold maskinterp
+      rcases hx with rfl | rfl <;>
+        simp [hm, h1, hr, bind, Except.bind, throw, throwThe, MonadExceptOf.throw, pure, Except.pure]
+    · intro a ha h2 h3
+      subst ha
+      unfold maskinterp
+      rcases hx with rfl | rfl <;>
+        simp [hm, h1, h2, h3, bind, Except.bind, throw, throwThe, MonadExceptOf.throw, pure, Except.pure]
+  · intro hm hnd
+    have h1 : (yshape.length == 1) = true := by rw [hnd]; rfl
+    constructor
+    · intro hx; subst hx
+      unfold maskinterp
+      simp [hm, h1, bind, Except.bind, pure, Except.pure]
+    · intro hx; subst hx
+      unfold maskinterp
+      simp [hm, h1, bind, Except.bind, pure, Except.pure]
+
+/-- **djs_reject, the calls that do not reach the rejection rule**: an `outmask`, `model`, `inmask` or `sigma`/`invvar`
+of another size raises ValueError; `model=None` returns `(inmask or the previous outmask or all ones, qdone=False)` -/
+theorem reject_refusals (sqrt : K → K) (o : Opts K) (data : List K) (model : Option (List K))
+    (outmask inmask : Option (List Bool)) (s : List K) :
+    (∀ om, outmask = some om → om.length ≠ data.length →
+      djsReject sqrt o data model outmask inmask s = .error "ValueError") ∧
+    ((∀ om, outmask = some om → om.length = data.length) → model = none →
+      djsReject sqrt o data model outmask inmask s =
+        .ok ((match inmask with
+              | some im => im
+              | none => (match outmask with | some om => om | none => List.replicate data.length true)), false)) ∧
+    ((∀ om, outmask = some om → om.length = data.length) → ∀ mdl, model = some mdl →
+      (mdl.length ≠ data.length ∨ (∃ im, inmask = some im ∧ im.length ≠ data.length) ∨ s.length ≠ data.length) →
+      djsReject sqrt o data model outmask inmask s = .error "ValueError") := by
+  refine ⟨?_, ?_, ?_⟩
+  · intro om ho hne
+    subst ho
+    simp [djsReject, hne, bind, Except.bind, throw, throwThe, MonadExceptOf.throw]
+  · intro ho hm
+    subst hm
+    cases outmask with
+    | none => cases inmask <;> simp [djsReject, bind, Except.bind, pure, Except.pure]
+    | some om => cases inmask <;> simp [djsReject, ho om rfl, bind, Except.bind, pure, Except.pure]
+  · intro ho mdl hm hbad
+    subst hm
+    have hom' : ∀ om, outmask = some om → (om.length = data.length) = True := fun om h => eq_true (ho om h)
+    rcases outmask with _ | om
+    all_goals
+      first
+        | have hom := hom' om rfl
+        | have hom : True := trivial
+      by_cases h1 : mdl.length ≠ data.length
+      · simp [djsReject, hom, h1, bind, Except.bind, throw, throwThe, MonadExceptOf.throw, pure, Except.pure]
+      · rcases hbad with h | ⟨im, rfl, h⟩ | h
+        · exact absurd h h1
+        · simp [djsReject, hom, h1, h, bind, Except.bind, throw, throwThe, MonadExceptOf.throw, pure, Except.pure]
+        · rcases inmask with _ | im
+          · simp [djsReject, hom, h1, h, bind, Except.bind, throw, throwThe, MonadExceptOf.throw, pure, Except.pure]
+          · by_cases h2 : im.length ≠ data.length
+            · simp [djsReject, hom, h1, h2, bind, Except.bind, throw, throwThe, MonadExceptOf.throw, pure, Except.pure]
+            · simp [djsReject, hom, h1, h2, h, bind, Except.bind, throw, throwThe, MonadExceptOf.throw, pure, Except.pure]
+
+end misc
+
+section median2
+variable {K : Type} [Field K] [LinearOrder K] [IsStrictOrderedRing K] [FloorRing K]
+attribute [local instance] fieldScalar
+attribute [-instance] Scalar.instOfNat Scalar.instOfScientific
+
+theorem w_ne_one (h : Nat) (hh : 1 ≤ h) : ((2 * h + 1 == 1) = false) := by
+  cases hb : (2 * h + 1 == 1) with
+  | true => simp at hb; omega
+  | false => rfl
+
+omit [LinearOrder K] [IsStrictOrderedRing K] [FloorRing K] in
+/-- the 1-D reflection `ext` reads the array at the reflected index `reflIdx` -/
+theorem ext_eq_reflIdx (a : List K) (j : Int) : ext a j = a.getD (reflIdx a.length j) 0 := by
+  unfold ext reflIdx
+  split
+  · rfl
+  · split <;> rfl
+
+/-- **the 2-D reflecting running median** (`djs_median(a, width = 2h+1, boundary = 'reflect')`, `a` an `n0 × n1` array
+given C-order flattened, `h ≥ 1`, both axes at least `h+1` long - the domain on which the code accepts the call):
+the call succeeds, the result has the shape of the input, and output pixel `(i, j)` is the window median `med` of the
+`(2h+1) × (2h+1)` values `ext2 a (i-h … i+h) (j-h … j+h)` (listed row by row) of the image reflected symmetrically
+about its four edges, `ext2 a n0 n1 r c = a[reflIdx n0 r, reflIdx n1 c]` - for any window-median kernel `med`
+(the contract of `scipy.signal.medfilt2d`, as in the 1-D theorem) -/
+theorem median_reflect_2d (med : List K → K) (n0 n1 : Nat) (a : List K) (h : Nat) (hh : 1 ≤ h)
+    (h0 : h + 1 ≤ n0) (h1 : h + 1 ≤ n1) :
+    ∃ out, djsMedian2 med n0 n1 a (2 * h + 1) .reflect = .ok out ∧ out.length = n0 * n1 ∧
+      ∀ i j, i < n0 → j < n1 → out[i * n1 + j]? = some (med (win2 (ext2 a n0 n1) h i j)) := by
+  unfold djsMedian2
+  simp only [w_ne_one h hh, Bool.false_eq_true, if_false]
+  exact djsMedianReflect2_spec med n0 n1 a h hh h0 h1
+
+/-- **2-D, `boundary = 'none'`** (`median(array, width)`: `medfilt2d` with the borders restored): whenever the kernel
+`min(width, size)` is odd the call succeeds; a pixel whose `(2h+1) × (2h+1)` window lies inside the array becomes the
+median of that window, every pixel closer than `h` to an edge keeps its input value -/
+theorem median_none_2d (med : List K → K) (n0 n1 : Nat) (a : List K) (h : Nat) (hh : 1 ≤ h)
+    (hodd : (min (2 * h + 1) (n0 * n1)) % 2 = 1) :
+    ∃ out, djsMedian2 med n0 n1 a (2 * h + 1) .none = .ok out ∧ out.length = n0 * n1 ∧
+      ∀ i j, i < n0 → j < n1 →
+        out[i * n1 + j]? = some (
+          if h ≤ i ∧ i + h < n0 ∧ h ≤ j ∧ j + h < n1 then
+            med (win2 (fun r c => a.getD (r.toNat * n1 + c.toNat) 0) h i j)
+          else a.getD (i * n1 + j) 0) := by
+  unfold djsMedian2
+  simp only [w_ne_one h hh, Bool.false_eq_true, if_false]
+  exact medianFilt2_spec med n0 n1 a h hodd
+
+/-- **2-D, the remaining `boundary` clauses and the refusals**: width 1 returns the input for every boundary;
+`'nearest'`, `'wrap'` and unknown names raise ValueError; `'none'` with an even kernel `min(width, size)` raises
+ValueError (scipy); `'reflect'` with an axis shorter than `ceil(width/2)` (other than length 1) raises ValueError (numpy
+cannot broadcast the reflected block); `'reflect'` with an even width `≤ size` raises ValueError -/
+theorem median_2d_clauses (med : List K → K) (n0 n1 : Nat) (a : List K) :
+    (∀ b, djsMedian2 med n0 n1 a 1 b = .ok a) ∧
+    (∀ w, w ≠ 1 → djsMedian2 med n0 n1 a w .nearest = .error "ValueError" ∧
+      djsMedian2 med n0 n1 a w .wrap = .error "ValueError" ∧ djsMedian2 med n0 n1 a w .other = .error "ValueError") ∧
+    (∀ w, w ≠ 1 → (min w (n0 * n1)) % 2 = 0 → djsMedian2 med n0 n1 a w .none = .error "ValueError") ∧
+    (∀ w, w ≠ 1 → (n0 < (w + 1) / 2 ∧ n0 ≠ 1) ∨ (n1 < (w + 1) / 2 ∧ n1 ≠ 1) →
+      djsMedian2 med n0 n1 a w .reflect = .error "ValueError") ∧
+    (∀ h, 1 ≤ h → 2 * h ≤ n0 * n1 → h ≤ n0 → h ≤ n1 →
+      djsMedian2 med n0 n1 a (2 * h) .reflect = .error "ValueError") := by
+  have ne1 : ∀ w, w ≠ 1 → (w == 1) = false := by
+    intro w hw
+    cases hb : (w == 1) with
+    | true => simp at hb; exact absurd hb hw
+    | false => rfl
+  refine ⟨?_, ?_, ?_, ?_, ?_⟩
+  · intro b; simp [djsMedian2]
+  · intro w hw
+    simp [djsMedian2, ne1 w hw]
+  · intro w hw hev
+    have : ((min w (n0 * n1)) % 2 == 0) = true := by rw [hev]; rfl
+    simp only [djsMedian2, ne1 w hw, Bool.false_eq_true, if_false, medianFilt2, this, if_true]
+  · intro w hw hs
+    simp only [djsMedian2, ne1 w hw, Bool.false_eq_true, if_false]
+    rw [djsMedianReflect2_eq]
+    simp only [ne1 w hw, Bool.false_eq_true, if_false, if_pos hs]
+  · intro h hh hsz h0 h1
+    have hw : 2 * h ≠ 1 := by omega
+    have p : (2 * h + 1) / 2 = h := by omega
+    simp only [djsMedian2, ne1 _ hw, Bool.false_eq_true, if_false]
+    rw [djsMedianReflect2_eq]
+    simp only [ne1 _ hw, Bool.false_eq_true, if_false, p]
+    rw [if_neg (by omega)]
+    have hle : n0 * n1 ≤ (n0 + 2 * h) * (n1 + 2 * h) := Nat.mul_le_mul (by omega) (by omega)
+    have hk : ((min (min (2 * h) (n0 * n1)) ((n0 + 2 * h) * (n1 + 2 * h))) % 2 == 0) = true := by
+      have : min (min (2 * h) (n0 * n1)) ((n0 + 2 * h) * (n1 + 2 * h)) = 2 * h := by omega
+      rw [this]
+      have : 2 * h % 2 = 0 := by omega
+      rw [this]; rfl
+    simp only [medianFilt2, hk, if_true]
+
+
+/-- **1-D, `boundary = 'none'`** (`median(array, width)`: `medfilt` with the borders restored): whenever the kernel
+`min(width, size)` is odd the call succeeds; sample `i` with `h ≤ i` and `i + h < n` becomes the median of
+`a[i-h … i+h]`, every sample closer than `h` to an end keeps its input value -/
+theorem median_none (med : List K → K) (a : List K) (h : Nat) (hh : 1 ≤ h)
+    (hodd : (min (2 * h + 1) a.length) % 2 = 1) :
+    ∃ out, djsMedian1 med a (2 * h + 1) .none = .ok out ∧ out.length = a.length ∧
+      ∀ i, i < a.length →
+        out[i]? = some (
+          if h ≤ i ∧ i + h < a.length then
+            med ((List.range (2 * h + 1)).map (fun (k : Nat) => a.getD (i + k - h) 0))
+          else a.getD i 0) := by
+  have p1 : (2 * h + 1 + 1) / 2 = h + 1 := by omega
+  have p2 : (2 * h + 1 - 1) / 2 = h := by omega
+  have hev : ((min (2 * h + 1) a.length) % 2 == 0) = false := by rw [hodd]; rfl
+  unfold djsMedian1 medianFilt
+  simp only [w_ne_one h hh, Bool.false_eq_true, if_false, hev, p1, p2]
+  refine ⟨_, rfl, by simp, ?_⟩
+  intro i hi
+  rw [List.getElem?_map, List.getElem?_range hi]
+  simp only [Option.map_some, Option.some.injEq]
+  by_cases hin : h ≤ i ∧ i + h < a.length
+  · rw [if_pos hin, if_neg (by push_cast; omega)]
+    have hkw : min (2 * h + 1) a.length = 2 * h + 1 := by omega
+    have p3 : (2 * h + 1) / 2 = h := by omega
+    simp only [hkw, p3]
+    congr 1
+    apply List.ext_getElem?
+    intro k
+    rw [List.getElem?_take, List.getElem?_drop, List.getElem?_map]
+    by_cases hk : k < 2 * h + 1
+    · rw [if_pos hk, List.getElem?_range hk, Option.map_some, List.getD_eq_getElem?_getD,
+        List.getElem?_eq_getElem (by omega), List.getElem?_eq_getElem (by omega)]
+      simp only [Option.getD_some, Option.some.injEq]
+      congr 1
+      omega
+    · rw [if_neg hk, List.getElem?_eq_none (by simpa using hk)]; rfl
+  · rw [if_neg hin, if_pos (by push_cast; omega)]
+    simp only [scalar_lit, Nat.cast_zero]
+
+/-- **1-D: every `boundary` other than `'none'` is the reflecting branch** ("forced to be 'reflect'"), so
+`median_reflect` speaks about `'nearest'`, `'wrap'` and unknown names as well; width 1 returns the input -/
+theorem median_1d_boundary (med : List K → K) (a : List K) (w : Nat) :
+    (∀ b, djsMedian1 med a 1 b = .ok a) ∧
+    (w ≠ 1 → djsMedian1 med a w .reflect = djsMedianReflect med a w ∧
+      djsMedian1 med a w .nearest = djsMedianReflect med a w ∧ djsMedian1 med a w .wrap = djsMedianReflect med a w ∧
+      djsMedian1 med a w .other = djsMedianReflect med a w) := by
+  constructor
+  · intro b; simp [djsMedian1]
+  · intro hw
+    have : (w == 1) = false := by
+      cases hb : (w == 1) with
+      | true => simp at hb; exact absurd hb hw
+      | false => rfl
+    simp [djsMedian1, this]
+
+/-- **the reflecting running median, refusals** (1-D): an array shorter than `ceil(width/2)` - other than a single
+value, which numpy broadcasts - raises ValueError; an even width `≥ 2` ALWAYS raises ValueError (the kernel of
+`scipy.signal.medfilt` must be odd) -/
+theorem median_reflect_refusals (med : List K → K) (a : List K) :
+    (∀ w, w ≠ 1 → a.length < (w + 1) / 2 → a.length ≠ 1 → djsMedianReflect med a w = .error "ValueError") ∧
+    (∀ h, 1 ≤ h → djsMedianReflect med a (2 * h) = .error "ValueError") := by
+  have ne1 : ∀ w, w ≠ 1 → (w == 1) = false := by
+    intro w hw
+    cases hb : (w == 1) with
+    | true => simp at hb; exact absurd hb hw
+    | false => rfl
+  constructor
+  · intro w hw hs h1
+    unfold djsMedianReflect
+    simp only [ne1 w hw, Bool.false_eq_true, if_false]
+    rw [if_pos ⟨hs, h1⟩]
+  · intro h hh
+    have p : (2 * h + 1) / 2 = h := by omega
+    unfold djsMedianReflect
+    simp only [ne1 (2 * h) (by omega), Bool.false_eq_true, if_false, p]
+    split
+    · rfl
+    · rename_i hns
+      have hk : ∀ big : List K, 2 * h ≤ big.length → medianFilt med big (2 * h) = .error "ValueError" := by
+        intro big hb
+        have : ((min (2 * h) big.length) % 2 == 0) = true := by
+          rw [Nat.min_eq_left hb]
+          have : 2 * h % 2 = 0 := by omega
+          rw [this]; rfl
+        simp only [medianFilt, this, if_true]
+      have hbig : 2 * h ≤ (if a.length < h then List.replicate h (a.getD 0 0) ++ a ++ List.replicate h (a.getD 0 0)
+          else (a.take h).reverse ++ a ++ (a.drop (a.length - h)).reverse).length := by
+        split <;> simp <;> omega
+      simp only [scalar_lit, Nat.cast_zero]
+      rw [hk _ hbig]
+
+/-- **the reflecting running median of a single value** (numpy broadcasts the one value into the padding): the
+window median of `2h+1` copies of it -/
+theorem median_reflect_single (med : List K → K) (v : K) (h : Nat) (hh : 1 ≤ h) :
+    djsMedianReflect med [v] (2 * h + 1) = .ok [med (List.replicate (2 * h + 1) v)] := by
+  have p1 : (2 * h + 1 + 1) / 2 = h + 1 := by omega
+  have p2 : (2 * h + 1 - 1) / 2 = h := by omega
+  have p3 : (2 * h + 1) / 2 = h := by omega
+  have w1 : ((2 * h + 1 == 1) = false) := by
+    cases hb : (2 * h + 1 == 1) with
+    | true => simp at hb; omega
+    | false => rfl
+  have hbig : List.replicate (h + 1) v ++ [v] ++ List.replicate (h + 1) v = List.replicate (2 * h + 3) v := by
+    rw [show [v] = List.replicate 1 v from rfl, List.replicate_append_replicate, List.replicate_append_replicate]
+    congr 1; omega
+  unfold djsMedianReflect
+  simp only [w1, Bool.false_eq_true, if_false, p1, List.length_singleton]
+  rw [if_neg (by omega), if_pos (by omega)]
+  simp only [List.getD_cons_zero, hbig]
+  unfold medianFilt
+  have hmin : min (2 * h + 1) (2 * h + 3) = 2 * h + 1 := by omega
+  have hodd : ((2 * h + 1) % 2 == 0) = false := by
+    have : (2 * h + 1) % 2 = 1 := by omega
+    rw [this]; rfl
+  simp only [List.length_replicate, hmin, hodd, Bool.false_eq_true, if_false, p1, p2, p3]
+  congr 1
+  apply List.ext_getElem?
+  intro k
+  rw [List.getElem?_take, List.getElem?_drop, List.getElem?_map]
+  by_cases hk : k < 1
+  · have : k = 0 := by omega
+    subst this
+    rw [if_pos (by omega), List.getElem?_range (by omega)]
+    simp only [Option.map_some, Nat.add_zero]
+    rw [if_neg (by push_cast; omega)]
+    simp only [List.drop_replicate, List.take_replicate, List.getElem?_cons_zero]
+    congr 3
+    omega
+  · rw [if_neg hk]
+    rw [List.getElem?_eq_none (by simp; omega)]
+
+/-- non-vacuity of `median_reflect_2d` (`h = 1`, a `2 × 2` image `[[1, 2], [3, 4]]`): the reflected image continues
+`1` beyond the top-left corner, `4` beyond the bottom-right corner and mirrors column 1 into column 2 -/
+example : (1 ≤ 1 ∧ 1 + 1 ≤ 2) ∧ ext2 ([1, 2, 3, 4] : List ℚ) 2 2 (-1) (-1) = 1 ∧
+    ext2 ([1, 2, 3, 4] : List ℚ) 2 2 2 2 = 4 ∧ ext2 ([1, 2, 3, 4] : List ℚ) 2 2 0 2 = 2 ∧
+    ext2 ([1, 2, 3, 4] : List ℚ) 2 2 1 (-1) = 3 := by
+  refine ⟨⟨by omega, by omega⟩, ?_, ?_, ?_, ?_⟩ <;> (unfold ext2 reflIdx; norm_num)
+
+end median2
 
 end PydlVerif.C17
